@@ -16,11 +16,11 @@ func init() {
 }
 
 type c01Case struct {
-	Dump   *gen.Dump `json:"dump"`
-	Pre    string    `json:"pre"`
-	Chunk  int       `json:"chunk"`
-	Naming bool      `json:"naming"`
-	Input  []byte    `json:"input"`
+	Dump   *gen.Dump  `json:"dump"`
+	Pre    gen.BinStr `json:"pre"`
+	Chunk  int        `json:"chunk"`
+	Naming bool       `json:"naming"`
+	Input  []byte     `json:"input"`
 }
 
 func c01Eval(r *core.Run, c *c01Case) {
@@ -52,7 +52,7 @@ func c01Eval(r *core.Run, c *c01Case) {
 		return
 	}
 	if !bytes.Equal(res.Prefix, []byte(c.Pre)) {
-		report("prefix", fmt.Sprintf("forwarded %q want %q", b2s(res.Prefix, 200), core.Trunc(c.Pre, 200)))
+		report("prefix", fmt.Sprintf("forwarded %q want %q", b2s(res.Prefix, 200), core.Trunc(string(c.Pre), 200)))
 		return
 	}
 	if len(res.Suffix)+len(res.Rest) != 0 {
@@ -86,7 +86,7 @@ func runC01(r *core.Run) {
 		d := gen.GenDump(rr, cfg, i%nf+(i/nf)*7)
 		c := &c01Case{Dump: d, Naming: rr.Bool()}
 		if rr.Chance(2, 3) {
-			c.Pre = gen.Junk(rr, &gen.JunkCfg{Long: i%16 == 3, Binary: true}, rr.Intn(5), d.EOL())
+			c.Pre = gen.BinStr(gen.Junk(rr, &gen.JunkCfg{Long: i%16 == 3, Binary: true}, rr.Intn(5), d.EOL()))
 		}
 		switch i % 10 {
 		case 0:
